@@ -402,6 +402,31 @@ class Check(object):
             self.viol(rid, node, construct, what)
         return cond
 
+    def borrow(self, other_pid, rule_map, why):
+        """runs the rule set of another property on the same tree and adopts the instances of the rules named in rule_map
+        {their rule id: our rule id}: a structural condition that two properties both need is decided once and reported under both.
+        Known findings listed for the other property are not adopted (they are reported there)."""
+        import importlib
+        sub = Check(other_pid, tier=self.tier)
+        sub.repo = self.repo
+        mod = importlib.import_module('.props.%s' % other_pid.lower(), __package__)
+        mod.check(sub)
+        kf = set((e['rule'], e['function'], e['construct']) for e in load_known_findings() if e.get('status') == 'known' and e.get('property') == other_pid)
+        n = 0
+        for (rid, f, fn, line, construct, verdict, nontrivial, detail) in sub.instances:
+            if rid not in rule_map:
+                continue
+            mine = rule_map[rid]
+            assert mine in self.rules, mine
+            if verdict == 'ok':
+                self.ok(mine, (f, fn, line), construct, nontrivial)
+            elif (rid, fn, construct) not in kf:
+                self.viol(mine, (f, fn, line), construct, '%s (%s)' % (detail, why))
+            n += 1
+        if n == 0:
+            raise AnalysisError('borrowed rules %s of %s matched no instance' % (sorted(rule_map), other_pid))
+        return n
+
     def count(self, rid):
         return sum(1 for i in self.instances if i[0] == rid)
 
